@@ -51,20 +51,27 @@ func quoteXPath(s string) (string, bool) {
 	return "", false
 }
 
-// xpathDollarToGo is the oracle's reading of "$n is group n": the longest digit prefix that names
-// an existing group becomes ${n}; everything else is literal for Go's Expand.
+// xpathDollarToGo is the oracle's reading of "$n is group n" (the Go transcription of Spec/Template.lean, which the
+// tmpl kind compares with the package on single matches): read left to right as Expand does; "$$" is a literal
+// dollar; an unbraced $ followed by a numeral without leading zero refers to the group named by the longest prefix
+// of the digits that is an existing group, written ${n} for Go; everything else is Go's.
 func xpathDollarToGo(r string, groups int) string {
 	var sb strings.Builder
 	for i := 0; i < len(r); i++ {
-		if r[i] == '$' {
+		if r[i] == '$' && i+1 < len(r) && r[i+1] == '$' {
+			sb.WriteString("$$")
+			i++
+			continue
+		}
+		if r[i] == '$' && i+1 < len(r) && r[i+1] >= '1' && r[i+1] <= '9' {
 			j := i + 1
 			for j < len(r) && r[j] >= '0' && r[j] <= '9' {
 				j++
 			}
 			best := 0
 			for k := j; k > i+1; k-- {
-				n, _ := strconv.Atoi(r[i+1 : k])
-				if n >= 1 && n <= groups {
+				n, err := strconv.Atoi(r[i+1 : k])
+				if err == nil && n >= 1 && n <= groups {
 					best = k
 					break
 				}
@@ -288,4 +295,18 @@ func runRxCache(c *Case) (out string) {
 		outs = append(outs, fmt.Sprintf("%s/%d/%d", res, loads, size))
 	}
 	return "rx:" + strings.Join(outs, ",")
+}
+
+// runTmpl: the expression is replace('subject','pattern','template') where the pattern matches the whole subject
+// exactly once, so the value is what the template expands to for that one match.
+func runTmpl(c *Case, tree *Tree) string {
+	e, err := xpath.Compile(c.Expr)
+	if err != nil {
+		return "cerr"
+	}
+	v := e.Evaluate(tree.At(Ref{0, -1}, true))
+	if s, ok := v.(string); ok {
+		return "tmpl:" + hx(s)
+	}
+	return "tmpl-badtype:" + valueStr(v)
 }
